@@ -336,6 +336,20 @@ def P_C16 (v : Variant) (attr : Toks) (item : Item) (view : View) : Bool :=
 
 /-! ## C08 — module mode: one method per non-private function, in order; trait visible to the parent -/
 
+/-- the visibility a trait declared *inside* a module must carry so that it is visible exactly
+    where `requested` — written next to the module — says: private means `pub(super)`, `pub` and
+    crate-rooted restrictions are unchanged, and a restriction relative to the outer module is one
+    `super` further away -/
+def visFromInside (requested : Toks) : Toks :=
+  match requested with
+  | [] => [i "pub", parens [i "super"]]
+  | [.ident "pub", .group .paren [.ident "self"]] => [i "pub", parens [i "in", i "super"]]
+  | [.ident "pub", .group .paren [.ident "super"]] => [i "pub", parens [i "in", i "super", p ':', p ':', i "super"]]
+  | [.ident "pub", .group .paren (.ident "in" :: .ident "self" :: rest)] => [i "pub", parens (i "in" :: i "super" :: rest)]
+  | [.ident "pub", .group .paren (.ident "in" :: .ident "super" :: rest)] =>
+      [i "pub", parens (i "in" :: i "super" :: p ':' :: p ':' :: i "super" :: rest)]
+  | vis => vis
+
 def useItem (traitVis : Toks) (modIdent traitIdent : String) : Toks :=
   traitVis ++ [i "use", i modIdent] ++ pathSep ++ [i traitIdent, p ';']
 
@@ -349,7 +363,7 @@ def P_C08 (attr : Toks) (item : Item) (expected : Option (List String)) (view : 
           (match expected with | some e => names == e | none => true) &&
           methodNames im.members == names && t.members.length == names.length &&
           t.ident == a.traitIdent &&
-          t.vis == (if a.traitVis.isEmpty then [i "pub", parens [i "super"]] else a.traitVis) &&
+          t.vis == visFromInside a.traitVis &&
           view.after == [.raw (useItem a.traitVis m.ident a.traitIdent)]
       | _, _, _ => false
   | _ => true
@@ -364,7 +378,7 @@ def P_C13 (attr : Toks) (item : Item) (view : View) : Bool :=
       | _, _ => false
   | .mod_ _ =>
       match parseFnAttr attr, mainTrait? view with
-      | .ok a, some t => t.vis == (if a.traitVis.isEmpty then [i "pub", parens [i "super"]] else a.traitVis)
+      | .ok a, some t => t.vis == visFromInside a.traitVis
       | _, _ => false
   | .trait src =>
       match parseTraitAttr attr, traitsOf view.items with
